@@ -313,7 +313,9 @@ func (e *Evaluator) Eval(
 		return skipMultilineComment(p)
 
 	// test()
-	case t.IsTopLevelFunctionIdentifier(ctx.GetFrame(), ctx.GetClass()):
+	case t.IsTopLevelFunctionIdentifier(ctx.GetFrame(), ctx.GetClass()) &&
+		!isLocalVariableReference(ctx, t, nextT):
+
 		p.Unget()
 		return e.handleEvaluateMethod(p, ctx, base.MakeObjectObject(), t, false)
 
@@ -327,4 +329,28 @@ func (e *Evaluator) Eval(
 	}
 
 	return nil
+}
+
+// a local variable (or parameter) shadows a top-level method of the same name,
+// unless an argument list follows
+func isLocalVariableReference(
+	ctx context.Context,
+	t *base.T,
+	nextT *base.T,
+) bool {
+
+	if nextT != nil && nextT.IsOpenParentheses() {
+		return false
+	}
+
+	valueT :=
+		base.GetValueT(
+			ctx.GetFrame(),
+			ctx.GetClass(),
+			ctx.GetMethod(),
+			t.ToString(),
+			ctx.IsDefineStatic,
+		)
+
+	return valueT != nil && !valueT.IsIdentifierType()
 }
